@@ -66,7 +66,9 @@ class Inliner:
 
     def helper(self, fid):
         f = self.raw.get(fid)
-        return f is not None and fid not in self.anchors and f['kind'] in ('Fn', 'AssocFn') and f['blocks'] and not (f.get('impl_trait') or '')
+        # (methods of trait impls too - a conversion `impl From<&State> for Verdict` is a helper like any other - but those stay
+        #  analysed stand-alone as well: they can also be reached through generic code that this call graph does not see)
+        return f is not None and fid not in self.anchors and f['kind'] in ('Fn', 'AssocFn') and f['blocks']
 
     def target_of(self, t):
         if t['k'] != 'call' or t.get('ckind') != 'direct':
